@@ -144,6 +144,15 @@ for route, name, fn in constructs():
             if kind != "Array" and name in ("sum", "enumerate", "zip", "contains", "max-key", "tuple()"):
                 continue      # iterating a tuple / object is not constrained by C07 (elements are operations, not secrets' values)
             cells.append([kind, route, name, prov, outcome(fn, x, y)])
+# is a scalar value AMONG the components of a collection?  (`e in t`: no collection may answer, by equality or by identity)
+for kind in ("Array", "Tuple", "NTuple", "Object"):
+    for prov in ("direct", "opres", "new"):
+        x = collection(kind, prov)
+        if x is None:
+            continue
+        for ename, e in (("another-input", scalar(SecretInteger, "input")), ("an-operation-result", scalar(SecretInteger, "opres"))):
+            cells.append([kind, "RMember", "scalar-in-collection:" + ename, prov, outcome(lambda a, b: b in a, x, e)])
+            cells.append([kind, "RMember", "scalar-not-in-collection:" + ename, prov, outcome(lambda a, b: b not in a, x, e)])
 # comparisons / membership against plain Python values, both operand orders
 PLAIN = {"int": 0, "int1": 1, "bool": True, "none": None, "str": "a", "float": 0.5}
 PCONS = [
